@@ -59,6 +59,42 @@ pub fn add_ignored_competitors(scn: &mut Scenario, rng: &mut Rng) {
     let t = scn.base_height + scn.chain.len() as u64 - 1;
     let active = build_all(scn).active;
     let mut tag = 500usize;
+    // a node stopped while syncing: blocks downloaded ahead of the tip (data on disk, never connected) with a
+    // hole between them and the tip — at most a header is known for the heights in between. The chain ends at
+    // the tip; nothing beyond the hole is part of it.
+    if rng.chance(1, 3) {
+        let gap = rng.range(1, 3);
+        if rng.coin() {
+            let b = competitor_block(tag, t + 1, rng);
+            scn.extras.push(ExtraBlock {
+                block: b,
+                kind: "header-only".into(),
+                index: Some(ExtraIndex { height: t + 1, status: *rng.pick(&[1u64, 2]) }),
+                parent_height: Some(t),
+                parent_extra: None,
+            });
+            tag += 1;
+        }
+        let mut parent: Option<usize> = None;
+        for k in 0..rng.usize(1, 3) {
+            let hh = t + 1 + gap + k as u64;
+            let b = competitor_block(tag, hh, rng);
+            scn.extras.push(ExtraBlock {
+                block: b,
+                kind: "downloaded-ahead".into(),
+                index: Some(ExtraIndex { height: hh, status: 3 | 8 }),
+                parent_height: None,
+                parent_extra: parent,
+            });
+            let xi = scn.extras.len() - 1;
+            parent = Some(xi);
+            for l in scn.layouts.iter_mut() {
+                let f = rng.usize(0, l.files.len() - 1);
+                l.files[f].segs.push(Seg::Extra { i: xi });
+            }
+            tag += 1;
+        }
+    }
     for _ in 0..rng.usize(1, 4) {
         let header_only = rng.coin() || scn.chain.len() < 2;
         let hh = if header_only && rng.chance(1, 3) { t + rng.range(1, 3) } else { rng.range(scn.base_height + 1, t.max(scn.base_height + 1)).min(t) };
@@ -115,7 +151,7 @@ impl Prop for C04 {
         }
     }
     fn required_probes(&self, _tier: Tier) -> Vec<&'static str> {
-        vec!["header_only_at_occupied", "header_only_beyond_tip", "competitor_sorts_earlier", "competitor_sorts_later", "competitor_beyond_tip", "reorged_branch_len_ge_2", "no_competitor_baseline", "active_records_without_undo_flag", "active_block_unreadable_where_a_competitor_is_stored", "index_beyond_2_pow_19_records"]
+        vec!["header_only_at_occupied", "header_only_beyond_tip", "competitor_sorts_earlier", "competitor_sorts_later", "competitor_beyond_tip", "reorged_branch_len_ge_2", "no_competitor_baseline", "active_records_without_undo_flag", "active_block_unreadable_where_a_competitor_is_stored", "index_beyond_2_pow_19_records", "competitor_beyond_a_hole"]
     }
     fn explore(&self, item: u64, rng: &mut Rng, tier: Tier, h: &mut Harness) -> Result<(), String> {
         let coin = COINS[(item % 8) as usize];
@@ -185,7 +221,10 @@ impl Prop for C04 {
             let (kind, status) = *rng.pick(&KINDS);
             let branch_len = if kind == "reorged-out-data" { rng.usize(1, 3) } else { 1 };
             // fork point: the branch starts at height fh (parent = active block fh-1)
-            let fh = if rng.chance(1, 4) { t + 1 } else { rng.range(1, t) };
+            let fh = if rng.chance(1, 4) { t + 1 + if rng.chance(1, 3) { rng.range(1, 3) } else { 0 } } else { rng.range(1, t) };
+            if fh > t + 1 {
+                h.stats.probe("competitor_beyond_a_hole");
+            }
             let mut parent_extra: Option<usize> = None;
             for k in 0..branch_len {
                 let hh = fh + k as u64;
@@ -333,7 +372,18 @@ impl Prop for C04 {
                 None => return format!("C04/{}/unindexed-block-delivered", x.kind),
             };
             if hh > t {
-                format!("C04/{}/beyond-tip/n-a", x.kind)
+                // contiguous with the tip (the known weakness) or separated from it by a height no admitted
+                // record claims (the driver loop stops there: never delivered on the pinned tree)
+                let admitted: std::collections::BTreeSet<u64> = scn.extras.iter().filter_map(|e| e.index.as_ref()).filter(|ix| ix.status & 12 != 0 && ix.height > t).map(|ix| ix.height).collect();
+                let mut top = t;
+                while admitted.contains(&(top + 1)) {
+                    top += 1;
+                }
+                if hh > top {
+                    format!("C04/{}/beyond-a-hole/n-a", x.kind)
+                } else {
+                    format!("C04/{}/beyond-tip/n-a", x.kind)
+                }
             } else {
                 let later = m.built.extras[xi].hash > m.built.active[hh as usize].hash;
                 format!("C04/{}/occupied/{}", x.kind, if later { "sorts-later" } else { "sorts-earlier" })
